@@ -341,38 +341,45 @@ class NestedOf(Ctx):
         return [[{"a": mk(0), "b": None}, {"c": mk(1)}]]
 
 
+_BT = typing.TypeVar("_BT")
+
+
+class Bag(abc.Collection, typing.Generic[_BT]):
+    """a user Collection class (one class for the whole run: every new ABC subclass would be
+    scanned by each later issubclass(..., Collection) of apischema)"""
+
+    _logical = "Bag"
+
+    def __init__(self, items):
+        self._items = list(items)
+
+    def __contains__(self, x):
+        return x in self._items
+
+    def __iter__(self):
+        return iter(self._items)
+
+    def __len__(self):
+        return len(self._items)
+
+
+def _bag_items(b):
+    return list(b._items)
+
+
 class BagOf(Ctx):
-    """a user Collection class with its own registered conversions from / to List[X]"""
+    """a user Collection class with its own registered (generic) conversions List[T] <-> Bag[T]"""
 
-    name = "Bag(Collection) <-> List[X]"
-
-    def __init__(self):
-        self.cls: Dict[str, type] = {}
+    name = "Bag[X](Collection) <-> List[X]"
 
     def tp(self, X, lab, side):
         from apischema.conversions import Conversion, deserializer, serializer
+        from apischema.conversions.converters import _deserializers, _serializers
 
-        class Bag(abc.Collection):
-            _logical = "Bag"
-
-            def __init__(self, items):
-                self._items = list(items)
-
-            def __contains__(self, x):
-                return x in self._items
-
-            def __iter__(self):
-                return iter(self._items)
-
-            def __len__(self):
-                return len(self._items)
-
-        Bag.__name__ = Bag.__qualname__ = "Bag" + side
-        lab.track(Bag)
-        deserializer(Conversion(Bag, source=typing.List[X], target=Bag))
-        serializer(Conversion(lambda b: list(b._items), source=Bag, target=typing.List[X]))
-        self.cls[side] = Bag
-        return Bag
+        if Bag not in _serializers:
+            deserializer(Conversion(Bag, source=typing.List[_BT], target=Bag[_BT]))
+            serializer(Conversion(_bag_items, source=Bag[_BT], target=typing.List[_BT]))
+        return Bag[X]
 
     def data(self, d, good):
         return [[d], [good, d], []]
@@ -381,10 +388,17 @@ class BagOf(Ctx):
         return Rec("Bag", {"items": [fns["x"](e) for e in v._items]})
 
     def build(self, mk):
-        return [self.cls["T"]([mk(0), mk(1)])]
+        return [Bag([mk(0), mk(1)])]
 
     def to_side(self, v, fns):
-        return self.cls["S"]([fns["x"](e) for e in v._items])
+        return Bag([fns["x"](e) for e in v._items])
+
+
+def unregister_bag():
+    from apischema.conversions import reset_deserializers, reset_serializer
+
+    reset_deserializers(Bag)
+    reset_serializer(Bag)
 
 
 class HolderOf(Ctx):
@@ -459,7 +473,8 @@ def contexts(tier: str) -> List[Callable[[], Ctx]]:
 
 def source_pool(tier: str) -> List[Any]:
     if tier == "thorough":
-        return [t for t in P.type_pool("quick") if not isinstance(t, (M.Disc,))]
+        extra = [t for t in P.type_pool("quick") if not isinstance(t, (M.Disc,)) and not (isinstance(t, Coll) and isinstance(t.t, M.Disc)) and not (isinstance(t, Opt) and isinstance(t.t, M.Disc))]
+        return source_pool("quick") + [t for i, t in enumerate(extra) if i % 3 == 0 and t not in source_pool("quick")]
     return [
         INT,
         FLOAT,
@@ -506,7 +521,7 @@ class Types:
 def data_for(td, tier: str, rng: random.Random) -> Tuple[List[Any], Any]:
     pool = P.data_pool(td, tier, rng)
     good = P.valid_samples(td)
-    n = 16 if tier == "quick" else 60
+    n = 16 if tier == "quick" else 40
     # valid samples first, then mutants / atoms / random values
     return pool[:n], copy.deepcopy(good[0])
 
@@ -540,7 +555,7 @@ def run_squares_deser(report, tier: str, seed: int):
     ctxs = contexts(tier)
     log = report.driver(
         "conv_square_deser",
-        bound=f"{len(srcs)} source types x placements {DESER_PLACEMENTS} x {len(ctxs)} contexts (bare, list, dict, Optional, tuple, unions in both orders, user Collection class with its own registered conversion, object fields x / y, list of objects, list inside a field) x per-source data (<= {16 if tier == 'quick' else 60} of valid samples / mutants / atoms / random)",
+        bound=f"{len(srcs)} source types x placements {DESER_PLACEMENTS} x {len(ctxs)} contexts (bare, list, dict, Optional, tuple, unions in both orders, user Collection class with its own registered conversion, object fields x / y, list of objects, list inside a field) x per-source data (<= {16 if tier == 'quick' else 40} of valid samples / mutants / atoms / random)",
     )
     log.rule("case = (source type S, placement, context C, datum D): deserialize(C[T], D, placement) accepts iff deserialize(C[S], D) accepts and equals C.map(f, .) with, at every position, the converter the statement's rules select (tags): dynamic reaches through containers / unions / registered container conversions but not into object fields (there: the registered f0, or Unsupported when none), annotated / field conversions only where declared, default_conversion everywhere; non-trivial when the S side accepts or D is a container")
 
@@ -883,6 +898,54 @@ def run_rules_deser(report, tier: str, seed: int):
                         ck.check("catch_value_error", f"{mode}:catch={catch}:{wrap}:{d!r}", got, exp, involved=("ConversionWithValueErrorMethod", "ConversionMethod", "ValueErrorCatcher"))
             finally:
                 lab.done()
+
+    # -- B2b: documented helpers built on conversions: as_str, as_names -----------------------------
+    lab = Lab()
+    try:
+        from apischema import serialize
+        from apischema.conversions import as_names, as_str
+
+        class Code(Op):
+            _logical = "Code"
+
+            def __init__(self, text):
+                if not isinstance(text, str) or not text.isalpha():
+                    raise ValueError(f"not a code: {text}")
+                super().__init__("ctor", text)
+
+            def __str__(self):
+                return self.payload
+
+        lab.track(as_str(Code))
+        for d in ["abc", "a1", "", 3, None, ["abc"]]:
+            if type(d) is not str:
+                exp = ("err", None)
+            elif not d.isalpha():
+                exp = ("err", [((), f"not a code: {d}")])
+            else:
+                exp = ("ok", Code(d))
+            ck.check("as_str", f"deserialize(Code, {d!r})", outcome(deserialize, Code, d), exp, involved=("ConversionWithValueErrorMethod", "as_str"))
+            exp_l = ("ok", [exp[1]]) if exp[0] == "ok" else ("err", [((0,) + loc, m) for loc, m in exp[1]] if exp[1] else None)
+            ck.check("as_str", f"deserialize(List[Code], [{d!r}])", outcome(deserialize, typing.List[Code], [d]), exp_l, involved=("ConversionWithValueErrorMethod", "as_str"))
+        ck.check("as_str", "serialize(Code, Code('xyz'))", outcome(serialize, Code, Code("xyz")), ("ok", "xyz"))
+        ck.check("as_str", "serialize(Dict[str, Code])", outcome(serialize, typing.Dict[str, Code], {"k": Code("xyz")}), ("ok", {"k": "xyz"}))
+
+        class Level(enum.Enum):
+            LOW = 1
+            HIGH = 2
+
+        lab.track(as_names(Level))
+        for d in ["LOW", "HIGH", "low", 1, 2, None]:
+            exp = ("ok", Level[d]) if isinstance(d, str) and d in Level.__members__ else ("err", None)
+            ck.check("as_names", f"deserialize(Level, {d!r})", outcome(deserialize, Level, d), exp, involved=("ConversionMethod", "as_names"))
+        # (the members of the generated str-Enum of names are str instances: compared as JSON text)
+        import json
+
+        as_json = lambda *a: json.loads(json.dumps(serialize(*a)))  # noqa: E731
+        ck.check("as_names", "serialize(Level, Level.HIGH)", outcome(as_json, Level, Level.HIGH), ("ok", "HIGH"))
+        ck.check("as_names", "serialize(List[Level])", outcome(as_json, typing.List[Level], [Level.LOW, Level.HIGH]), ("ok", ["LOW", "HIGH"]))
+    finally:
+        lab.done()
 
     # -- B3: chains ------------------------------------------------------------------------------
     chain_srcs = [INT, STR, Coll("list", INT), P.A, Uni((INT, STR)), Opt(INT)] + ([P.E, P.NODE, Tup((INT, STR)), Mapp(STR, INT)] if tier == "thorough" else [])
@@ -1556,10 +1619,11 @@ def run_schemas(report, tier: str, seed: int):
                         ctx = mk_ctx()
                         if isinstance(td, (Opt, Uni)) and (ctx.objects or isinstance(ctx, (OptOf, UnionOf, NestedOf))):
                             continue  # typing flattens Optional[Optional[..]] on the S side only
-                        if isinstance(td, Lit) and ctx.objects:
-                            # the S side `y: Optional[Literal[..]] = None` loses its `default` (the
-                            # default cannot be serialized: known finding of C13 on Literal union
-                            # members), so it is no reference here
+                        if ctx.objects and (isinstance(td, Lit) or (isinstance(td, (Ann, NewT)) and isinstance(td.t, (Uni, Opt)))):
+                            # the S side `y: Optional[Literal[..]] = None` (or Optional[Annotated[
+                            # Union[..]]]) loses its `default`: the default cannot be serialized
+                            # (known findings of C13 on Literal / nested-union members of a union),
+                            # so it is no reference here
                             continue
                         expect_unsupported = False
                         if base == "registered":
@@ -1667,8 +1731,11 @@ def run_schemas(report, tier: str, seed: int):
 
 
 def run(report, tier: str, seed: int):
-    run_squares_deser(report, tier, seed)
-    run_squares_ser(report, tier, seed)
-    run_rules_deser(report, tier, seed)
-    run_rules_ser(report, tier, seed)
-    run_schemas(report, tier, seed)
+    try:
+        run_squares_deser(report, tier, seed)
+        run_squares_ser(report, tier, seed)
+        run_rules_deser(report, tier, seed)
+        run_rules_ser(report, tier, seed)
+        run_schemas(report, tier, seed)
+    finally:
+        unregister_bag()
